@@ -464,6 +464,7 @@ def run(chk):
 
 _S = "cnvlib/segmentation/__init__.py"
 MUTANTS = [
+    dict(name="twin: distinct gene names through dict.fromkeys", expect="silent", file="cnvlib/segmentation/__init__.py", old="        subgenes = [g for g in pd.unique(bin_genes[bin_idx]) if g not in ignore]", new="        subgenes = list(dict.fromkeys(g for g in bin_genes[bin_idx] if g not in ignore))"),
     dict(name="regress: chained store through the start property", file=_S, old='    segments.data.iloc[0, segments.data.columns.get_loc("start")] = bins_start\n', new="    segments.start.iat[0] = bins_start\n"),
     dict(name="delete the end stretch", file=_S, old='    segments.data.iloc[-1, segments.data.columns.get_loc("end")] = bins_end\n', new=""),
     dict(name="stretch last start instead of first", file=_S, old='    segments.data.iloc[0, segments.data.columns.get_loc("start")] = bins_start\n', new='    segments.data.iloc[-1, segments.data.columns.get_loc("start")] = bins_start\n'),
